@@ -452,7 +452,7 @@ Definition model_eval (id : Z) : option (Z * Z * list Z) :=
   | 1 => Some (4, 2, [])   (* new NF(zz) *)
   | 2 => Some (4, 2, [1])   (* new NF(se(1), zz) *)
   | 3 => Some (6, 1, [1; 2])   (* new NF(se(1), se(2)) *)
-  | 4 => Some (4, 1, [1])   (* new zz1(se(1)) -- cmplEvaluateNodeNewExpression evaluates the arguments before callee.resolve() *)
+  | 4 => Some (4, 1, [])   (* new zz1(se(1)) -- callee.resolve() comes before the arguments (920f952) *)
   | 5 => Some (6, 2, [])   (* new NF(U.x) *)
   | 6 => Some (4, 2, [])   (* NF(zz) *)
   | 7 => Some (6, 1, [1; 2])   (* NF(se(1), se(2)) *)
@@ -479,9 +479,9 @@ Definition model_eval (id : Z) : option (Z * Z * list Z) :=
   | 28 => Some (4, 1, [1])   (* se(1) + zz1 + se(2) *)
   | 29 => Some (4, 1, [1])   (* [se(1), zz1, se(2)] *)
   | 30 => Some (4, 1, [1])   (* ({a: se(1), b: zz1, c: se(2)}) *)
-  | 31 => Some (6, 1, [9])   (* U[TS] -- the message of the TypeError is built with memberValue.string() before the panic *)
-  | 32 => Some (6, 1, [9])   (* U[TS] = se(1) -- the message of the TypeError is built with memberValue.string() before the panic *)
-  | 33 => Some (6, 1, [9])   (* delete U[TS] -- the message of the TypeError is built with memberValue.string() before the panic *)
+  | 31 => Some (6, 1, [])   (* U[TS] -- objectCoerce fails before the subscript is converted (322af24) *)
+  | 32 => Some (6, 1, [])   (* U[TS] = se(1) -- objectCoerce fails before the subscript is converted (322af24) *)
+  | 33 => Some (6, 1, [])   (* delete U[TS] -- objectCoerce fails before the subscript is converted (322af24) *)
   | 34 => Some (6, 1, [9])   (* NF[TS]() *)
   | 35 => Some (6, 0, [1])   (* se(1) in NF *)
   | 36 => Some (6, 1, [])   (* O.nf.x.y(se(1)) *)
@@ -492,8 +492,8 @@ Definition model_eval (id : Z) : option (Z * Z * list Z) :=
   | 41 => Some (6, 1, [1])   (* O.k.z[se(1)] = se(2) *)
   | 42 => Some (4, 1, [])   (* zz1 -= zz2 *)
   | 43 => Some (4, 1, [1])   (* O[se(1)] += zz2 *)
-  | 44 => Some (90, 0, [9])   (* U[TT] -- the message of the TypeError is built with memberValue.string() before the panic *)
-  | 45 => Some (4, 2, [])   (* new zz1(zz2) -- cmplEvaluateNodeNewExpression evaluates the arguments before callee.resolve() *)
+  | 44 => Some (6, 1, [])   (* U[TT] -- objectCoerce fails before the subscript is converted (322af24) *)
+  | 45 => Some (4, 1, [])   (* new zz1(zz2) -- callee.resolve() comes before the arguments (920f952) *)
   | 46 => Some (90, 0, [1; 9])   (* NF(se(1), TT + 1) *)
   | 47 => Some (6, 1, [])   (* new U.C(se(1)) *)
   | 48 => Some (4, 1, [])   (* zz1.m(se(1)) *)
